@@ -4,6 +4,7 @@ import Kdf.Model.Cb
 ```
 stack <n> ; <priv> <mask> ; <priv> <mask> ...   -- top first; mask bit i set = hook i overridden
 inv <hook 0..6>
+del <i>                                   -- addrxlat_ctx_del_cb of the layer at position i from the top
 ```
 The implementation id of the layer at height j above the default record (bottom layer j = 0) and hook h is `j*8+h`.
 Output per `inv`: `> called <impl> <priv> <depth>` | `> base <h> <depth>` | `> diverge` | `> crash`.
@@ -38,6 +39,9 @@ partial def loop (h : IO.FS.Stream) (stack : List Layer) : IO Unit := do
   | ["inv", n] =>
     IO.println (showRes (invoke (stack.length + 64) stack (hookOf n.toNat!)))
     loop h stack
+  | ["del", i] =>
+    IO.println "> del"
+    loop h (delCb stack i.toNat!)
   | _ => IO.println "> bad-op"; loop h stack
 
 def run (h : IO.FS.Stream) : IO Unit := loop h []
